@@ -161,7 +161,7 @@ func VerifC16Ack(h *verifrt.H) {
 	h.Assert(err == nil, "setup-summon")
 	vhPut(s0, "k1", 1)
 	event := h.Choose("lifecycleEvent", h.Param("events", 2)) // 0 last-record delete, 1 graceful close, 2 explicit destroy
-	acked := false
+	acked, sameInstance := false, false
 	v := h.Int64("value")
 	h.Assume(v != 0)
 	h.Go("writer", func() {
@@ -169,6 +169,7 @@ func VerifC16Ack(h *verifrt.H) {
 		if err != nil {
 			return
 		}
+		sameInstance = s == s0
 		s.BeginVigil()
 		vhPut(s, "k2", v)
 		s.CeaseVigil()
@@ -207,13 +208,16 @@ func VerifC16Ack(h *verifrt.H) {
 			return
 		}
 		t, gerr := r.GetTreasure("k2")
-		if event == 2 {
-			// an explicit Destroy overlapping the write removes everything: both outcomes are serial
+		if event == 2 && sameInstance {
+			// an explicit Destroy overlapping a write into the instance being destroyed removes
+			// everything: both serial orders are legal
 			h.Cover("end")
 			return
 		}
-		h.Known("C16-auto-destroy-deletes-concurrent-write", "acknowledged-write", event == 0)
-		h.Known("C16-idle-close-between-summon-and-vigil", "acknowledged-write", event == 1)
+		// The recorded findings concern a write into the very instance that is going away. A write
+		// acknowledged by a NEW instance (created after the old one was gone) must always survive.
+		h.Known("C16-auto-destroy-deletes-concurrent-write", "acknowledged-write", event == 0 && sameInstance)
+		h.Known("C16-idle-close-between-summon-and-vigil", "acknowledged-write", event == 1 && sameInstance)
 		h.Assert(gerr == nil, "acknowledged-write-present-after-reopen")
 		h.ClearKnown()
 		if gerr == nil {
